@@ -320,6 +320,10 @@ class AlgState:
         self.added_to = None
         self.has_params = spec["params"] is not None
         self.cur_params = copy.deepcopy(spec["params"])
+        # for the extraction oracle: the result exactly as the last clean run left it, and the run parameters exactly as
+        # the user last supplied them - neither touched by any earlier mpe call
+        self.result_after_run = None
+        self.clean_params = None
         self.ran = False
         self.mpe = "no"  # no | yes | unknown
         self.mpe_args = None
@@ -343,6 +347,8 @@ class World:
         self.setups = [make_setup(s, self.arrays[i], w["fs"]) for i, s in enumerate(w["setups"])]
         self.algs = [make_alg(a) for a in w["algs"]]
         self.st = [AlgState(a) for a in w["algs"]]
+        for st, alg in zip(self.st, self.algs):
+            st.clean_params = copy.deepcopy(alg.run_params)
         self.refs = {}  # isolated-execution memo
         self.saved = {}  # path -> records {"snap", "states", "setup"} that may legitimately be read back
         self.last_good = {}  # setup index -> path of its latest successful save
@@ -873,6 +879,7 @@ def apply_op(wd: World, op, step):
         wd.algs[ai].set_run_params(cls.RunParamCls(**copy.deepcopy(op["params"])))
         wd.st[ai].has_params = True
         wd.st[ai].cur_params = copy.deepcopy(op["params"])
+        wd.st[ai].clean_params = copy.deepcopy(wd.algs[ai].run_params)
         if wd.st[ai].ran:
             wd.inc("probe.params_changed_after_run")
             wd.st[ai].stale = True
@@ -993,6 +1000,7 @@ def _do_run(wd, op, step, before):
                 if a_ != b_ or not st.ran:
                     touched.add(i)
                 st.ran, st.mpe, st.unknown, st.mpe_args, st.stale = True, "no", False, None, False
+                st.result_after_run = copy.deepcopy(wd.algs[i].result)
             elif a_ == b_:
                 if rexc is None and kind == "ok" and b_ is not None and len(targets) == 1 and not st.unknown:
                     # (an earlier result that was itself produced under a swallowed fault is not "the earlier good
@@ -1020,6 +1028,7 @@ def _do_run(wd, op, step, before):
         for i in odd:
             st = wd.st[i]
             st.unknown, st.ran, st.mpe = True, True, "unknown"  # that one result is not judged
+            st.result_after_run = None
             touched.add(i)
         wd.check_isolation(before, after, step, {"result": touched})
         return outcome
@@ -1080,6 +1089,7 @@ def _do_run(wd, op, step, before):
             if st.loaded:
                 wd.inc("probe.run_after_restart")
             st.ran, st.mpe, st.unknown, st.mpe_args, st.stale = True, "no", False, None, False
+            st.result_after_run = copy.deepcopy(wd.algs[i].result)
     if rexc is not None and not stopped:
         wd.violate("exc.type_neq_ref", step, f"every member runs in isolation, but the call raised {type(rexc).__name__}: {rexc}")
         return outcome
@@ -1109,8 +1119,15 @@ def _do_mpe(wd, op, step, before):
     pre = None
     if alg.result is not None:
         pre = copy.copy(alg)
-        pre.result = copy.deepcopy(alg.result)
-        pre.run_params = copy.deepcopy(alg.run_params)
+        if st.result_after_run is not None and st.clean_params is not None and not st.unknown:
+            # "fresh run + this mpe": nothing an earlier mpe call stored can reach the reference
+            pre.result = copy.deepcopy(st.result_after_run)
+            pre.run_params = copy.deepcopy(st.clean_params)
+            wd.inc("probe.mpe_reference_from_post_run_snapshot")
+        else:
+            # after a restart (pickle changed the memory layout) or a swallowed fault: what the algorithm holds now
+            pre.result = copy.deepcopy(alg.result)
+            pre.run_params = copy.deepcopy(alg.run_params)
     _arm(wd, op)
     try:
         setup.mpe(op["name"], **copy.deepcopy(op["args"]))
@@ -1158,6 +1175,14 @@ def _do_mpe(wd, op, step, before):
                    f"{'returns' if pexc is None else 'raises ' + type(pexc).__name__}, in this history it "
                    f"{'returned' if rexc is None else 'raised ' + type(rexc).__name__ + ': ' + str(rexc)}", ai)
         return "exc"
+    if rexc is not None:
+        # both raise the same exception type: what a failed extraction leaves behind (typically the outputs of an earlier
+        # mpe) is not specified by the property - not judged until the next successful run or mpe overwrites it
+        wd.inc("fault.fired.nat_exc")
+        if a != b:
+            st.mpe = "unknown"
+        wd.check_isolation(before, after, step, allow)
+        return "nat_exc"
     if a != want:
         wd.violate("mpe.neq_ref", step, f"mpe on {name}: result differs from the same extraction on a private copy of its "
                                          f"stored result in fields {diff_fields(a, want)}", ai)
@@ -1167,10 +1192,6 @@ def _do_mpe(wd, op, step, before):
         return "ok"
     fn = getattr(pre.result, "Fn", None)
     st.mpe = "no" if fn is None else "yes"
-    if rexc is not None:
-        wd.inc("fault.fired.nat_exc")
-        wd.check_isolation(before, after, step, allow)
-        return "nat_exc"
     wd.inc("probe.mpe_ok_equal_to_isolated_reference")
     if st.mpe_args is not None:
         wd.inc("probe.repeat_mpe")
@@ -1306,6 +1327,7 @@ def _adopt(wd, si, obj):
         nm = wd.w["algs"][i]["name"]
         wd.algs[i] = algs[nm]
         wd.st[i].loaded = True
+        wd.st[i].result_after_run = None
 
 
 def _do_restart(wd, op, step):
@@ -1429,6 +1451,7 @@ def _restore_model_from(wd, sj, obj, states):
         if a["name"] in names and i in states:
             st = copy.copy(states[i])
             st.loaded = True
+            st.result_after_run = None
             wd.st[i] = st
             wd.algs[i] = obj.algorithms[a["name"]]
         else:
@@ -1627,6 +1650,7 @@ def _epilogue(wd, step):
             if wd.stop:
                 return
             st.ran, st.mpe, st.unknown, st.stale = True, "no", False, False
+            st.result_after_run = copy.deepcopy(wd.algs[i].result)
             wd.inc("probe.epilogue_runs")
 
 
